@@ -11,6 +11,10 @@ import (
 
 type AllOf struct {
 	schemaName []string
+
+	// writtenAsArray true if the value of the rule is an array, whatever the number
+	// of its items.
+	writtenAsArray bool
 }
 
 var (
@@ -49,6 +53,12 @@ func (c *AllOf) Append(scalar bytes.Bytes) {
 	c.schemaName = append(c.schemaName, s.String())
 }
 
+// SetWrittenAsArray marks the value of the rule as an array: `["@name"]` is not
+// the scalar `"@name"` in the AST.
+func (c *AllOf) SetWrittenAsArray() {
+	c.writtenAsArray = true
+}
+
 func (c AllOf) SchemaNames() []string {
 	return c.schemaName
 }
@@ -56,7 +66,7 @@ func (c AllOf) SchemaNames() []string {
 func (c AllOf) ASTNode() jschema.RuleASTNode {
 	const source = jschema.RuleASTNodeSourceManual
 
-	if len(c.schemaName) == 1 {
+	if len(c.schemaName) == 1 && !c.writtenAsArray {
 		return newRuleASTNode(jschema.TokenTypeShortcut, c.schemaName[0], source)
 	}
 
